@@ -419,12 +419,21 @@ func (d *Decoder) Repair(checkParity bool) ([]string, error) {
 
 	var repairedPaths []string
 
+	// d.fileData has one element per entry saved in the volume
+	// set, so index only those entries with it.
+	var savedEntries []fileEntry
+	for _, entry := range d.indexVolume.entries {
+		if entry.header.Status.savedInVolumeSet() {
+			savedEntries = append(savedEntries, entry)
+		}
+	}
+
 	for i, data := range d.fileData {
 		if data != nil {
 			continue
 		}
 
-		entry := d.indexVolume.entries[i]
+		entry := savedEntries[i]
 		data = shards[i][:entry.header.FileBytes]
 		if sixteenKHash(data) != entry.header.SixteenKHash {
 			return repairedPaths, errors.New("hash mismatch (16k) in reconstructed data")
